@@ -1,5 +1,6 @@
 import AikenVerif.Model.Wire
 import AikenVerif.Model.Mini
+import AikenVerif.Model.ErrorClass
 /-!
 driver `mini <mode> <fuel> (prog (adts …) (fn (x…) body)…) (calls (f v…)…)`:
 the MiniAiken source semantics on each call; reply `out₁ | out₂ | …` with
@@ -188,5 +189,9 @@ def handle (args : List String) : String :=
       | none => "bad-program"
     | _, _, _ => "bad-request"
   | _ => "bad-request"
+
+/-- `errclass <Variant>…`: the generated-enum classification of `machine::Error` variants (C06) -/
+def handleErrClass (args : List String) : String :=
+  " ".intercalate (args.map classifyName)
 
 end AikenVerif.Drivers.Mini
